@@ -11,4 +11,8 @@ m = importlib.util.module_from_spec(spec); spec.loader.exec_module(m)
 m.ensure_simgo()
 bdir, tree = m.ensure_build(need_race=True)
 print("setup: simulators built in", bdir, "for tree", tree)
+bad = m.selftest(30, 4)
+if bad:
+    print("setup: determinism self-test FAILED for", bad); sys.exit(2)
+print("setup: determinism self-test ok (8 engines x 4 processes x 30 runs, GOMAXPROCS 1/4/16)")
 PY
